@@ -441,7 +441,7 @@ func newContracts() *Contracts {
 
 var clauseKeywords = map[string]bool{"requires": true, "ensures": true, "modifies": true, "preserves": true, "decreases": true,
 	"loop": true, "invariant": true, "assert": true, "func": true, "spec": true, "ghost": true, "axiom": true, "type": true,
-	"iface": true, "field": true, "end": true, "flags": true, "props": true, "lemma": true, "results": true, "global": true, "uses": true, "ufun": true, "assumes": true}
+	"iface": true, "field": true, "end": true, "flags": true, "props": true, "lemma": true, "results": true, "global": true, "uses": true, "ufun": true, "assumes": true, "functype": true}
 
 type rawLine struct {
 	text string
@@ -504,6 +504,22 @@ func parseContractText(c *Contracts, pkgPath, file string, lines []rawLine) erro
 			kw, rest = s.text[:i], strings.TrimSpace(s.text[i+1:])
 		}
 		switch kw {
+		case "functype":
+			// contract every value of a named function type is assumed to satisfy at dynamic call sites
+			cur = &FuncSpec{Pkg: pkgPath, Flags: map[string]bool{"functype": true}, Loops: map[int]*LoopSpec{}, File: file, Line: s.line}
+			curLoop, curType = nil, nil
+			fields := strings.Fields(rest)
+			if len(fields) == 0 {
+				return fmt.Errorf("%s:%d: functype needs a type name", file, s.line)
+			}
+			cur.Name = "functype." + fields[0]
+			for i := 1; i < len(fields); i++ {
+				if fields[i] == "props" && i+1 < len(fields) {
+					cur.Props = strings.Split(fields[i+1], ",")
+					i++
+				}
+			}
+			c.Funcs[cur.Pkg+"."+cur.Name] = cur
 		case "func", "iface":
 			cur = &FuncSpec{Pkg: pkgPath, Flags: map[string]bool{}, Loops: map[int]*LoopSpec{}, File: file, Line: s.line}
 			curLoop, curType = nil, nil
